@@ -7,6 +7,8 @@ import (
 	"crypto/sha256"
 	"fmt"
 	"os"
+	"path/filepath"
+	"runtime"
 	"sort"
 	"strings"
 	"testing"
@@ -190,6 +192,11 @@ func (m *coreMon) check(op string, res string, cur *coreSnap) {
 	if res != "ok" && f[0] != "begin" && f[0] != "end" {
 		if prev.renderFull("x") != cur.renderFull("x") {
 			m.violate("C01/reject/state-changed-by-rejected-"+f[0], "observation differs after a rejected op")
+		}
+		for i := range cur.MBal {
+			if i < len(prev.MBal) && !cur.MBal[i].Equal(prev.MBal[i]) {
+				m.violate("C06/reject/blocked-account-balance-changed-by-rejected-"+f[0], fmt.Sprintf("m%d %s -> %s", i, prev.MBal[i], cur.MBal[i]))
+			}
 		}
 	}
 	for ri, r := range cur.Ras {
@@ -461,8 +468,13 @@ func (m *coreMon) check(op string, res string, cur *coreSnap) {
 			case f[0] == "fraud" && res == "ok" && kv["punish"] == coreActorName(i):
 				burned := prev.Supply.Sub(cur.Supply)
 				paid := math.ZeroInt()
-				if kv["rewardee"] != "-" {
-					ri := int(atoi(strings.TrimPrefix(kv["rewardee"], "a")))
+				if rw := kv["rewardee"]; strings.HasPrefix(rw, "m") {
+					// a blocked module account (m0 = index 900 of the model): its own bank balance
+					if mi := int(atoi(rw[1:])); mi >= 0 && mi < len(cur.MBal) && mi < len(prev.MBal) {
+						paid = cur.MBal[mi].Sub(prev.MBal[mi])
+					}
+				} else if rw != "-" {
+					ri := int(atoi(strings.TrimPrefix(rw, "a")))
 					if ri >= 0 && ri < len(cur.Bal) {
 						paid = cur.Bal[ri].Sub(prev.Bal[ri])
 					}
@@ -477,6 +489,9 @@ func (m *coreMon) check(op string, res string, cur *coreSnap) {
 		if pq.Bonded != cq.Bonded && cq.Bonded {
 			m.violate("C07/status/unbonded-sequencer-bonded-again", fmt.Sprintf("a%d by %s", i, op))
 		}
+	}
+	if f[0] == "fraud" && res == "ok" && strings.HasPrefix(kv["rewardee"], "m") {
+		m.r.Hit("fraud/blocked-rewardee-accepted") // reward share zero (bond < 2) on the unchanged code
 	}
 	if f[0] == "end" {
 		lost := math.ZeroInt()
@@ -851,10 +866,15 @@ func (c *coreGen) genFraud(s *coreSnap, ri int, members []int) string {
 		rev += uint64(1 + g.Intn(2))
 		c.r.Hit("fraud-wrong-revision")
 	}
-	if len(members) > 0 && g.Chance(40) {
+	if len(members) > 0 && g.Chance(40+map[string]int{"C06": 25}[c.focus]) {
 		punish = fmt.Sprintf("a%d", members[g.Intn(len(members))])
-		if g.Chance(60) {
+		// one draw: 60 % an ordinary actor, 12 % m0 = the distribution module account (a recipient the
+		// bank refuses), 28 % nobody
+		if x := g.Intn(100); x < 60 {
 			rewardee = fmt.Sprintf("a%d", c.pickActor())
+		} else if x < 72 {
+			rewardee = "m0"
+			c.r.Hit("fraud/blocked-rewardee")
 		}
 	}
 	return fmt.Sprintf("fraud r%d h=%d rev=%d punish=%s rewardee=%s auth=%s", ri, h, rev, punish, rewardee, auth)
@@ -878,6 +898,51 @@ func coreRunTrace(t *testing.T, r *Run, lines []string) {
 	r.Trace()
 }
 
+// coreCorpus: the directed traces of corpus/C06/*.ops (blocked rewardee), run first on every seed.
+func coreCorpus() [][]string {
+	var out [][]string
+	// the harness directory is <root>/harness, or a private copy <root>/.cache/harness-<pid> when
+	// another tree is checked: walk up from the working directory / this file until corpus/ shows
+	root := ""
+	var starts []string
+	if wd, err := os.Getwd(); err == nil {
+		starts = append(starts, wd)
+	}
+	if _, file, _, ok := runtime.Caller(0); ok {
+		starts = append(starts, filepath.Dir(file))
+	}
+	for _, d := range starts {
+		for i := 0; i < 4 && root == ""; i++ {
+			d = filepath.Dir(d)
+			if _, err := os.Stat(filepath.Join(d, "corpus", "C06")); err == nil {
+				root = d
+			}
+		}
+	}
+	if root == "" {
+		return nil
+	}
+	files, _ := filepath.Glob(filepath.Join(root, "corpus", "C06", "*.ops"))
+	sort.Strings(files)
+	for _, f := range files {
+		b, err := os.ReadFile(f)
+		if err != nil {
+			continue
+		}
+		var lines []string
+		for _, l := range strings.Split(string(b), "\n") {
+			l = strings.TrimSpace(l)
+			if l != "" && !strings.HasPrefix(l, "#") {
+				lines = append(lines, l)
+			}
+		}
+		if len(lines) > 0 && strings.HasPrefix(lines[0], "reset") {
+			out = append(out, lines)
+		}
+	}
+	return out
+}
+
 func TestCore(t *testing.T) { runCore(t, "Core") }
 
 // corePost, when set, runs at the end of a generation run of runCore on the same Run (TestC18 uses
@@ -898,6 +963,16 @@ func runCore(t *testing.T, id string) {
 			coreRunTrace(t, r, tr)
 		}
 		return
+	}
+	// directed traces first: even the smallest run contains the named rare branches
+	for _, tr := range coreCorpus() {
+		coreRunTrace(t, r, tr)
+		r.Hit("corpus/directed-trace")
+		for _, l := range tr {
+			if strings.HasPrefix(l, "fraud ") && strings.Contains(l, "rewardee=m") {
+				r.Hit("fraud/blocked-rewardee")
+			}
+		}
 	}
 	nTraces, nOps := r.N(60, 700), r.N(70, 130)
 	if n := os.Getenv("CORE_TRACES"); n != "" {
